@@ -415,6 +415,7 @@ pub fn run(tier: Tier) -> i32 {
     let mut rep = Report::new("C03", tier, "exploration");
     let cfgs = configs();
     rep.set("rule", json!("Bounded-exhaustive XML generation rooted at <svg xmlns=SVG>: (attrs) 20 element names (SVG and svgdx vocabulary) x 24 attribute atoms (svgdx-looking, namespaced, entity/char refs, quotes, unicode, blanks) singly and in ordered pairs, and on the root; (content) all sequences of <= 2 (thorough 4) content atoms from 12 text atoms, comments, CDATA, PI, empty and non-empty elements, directly in the root, inside <g> and inside <text>; (prolog) XML declaration x doctype x comments/PIs before and after the root x line-ending variants; every document under 16 configurations. (nested) every content sequence of <= 2 atoms inside a namespaced <svg> embedded at 5 positions of an svgdx document under 3 configurations. Oracle: the independent strict XML reader yields the same canonical event stream (names, attribute name->value maps, merged character data, comments, CDATA, PIs, in order) for input (sub)tree and output. Non-trivial = accepted, infoset equal and more than an empty root."));
+    rep.set("also_later", json!("Rounds 3-5 added a declared-entities leg: real SVG whose namespace is an entity of its own DOCTYPE (also with the Adobe Illustrator header) is passed through byte for byte; an embedded namespaced <svg> using such an entity comes out with the replacement text."));
     rep.set("also", json!("Also: embedded namespaced <svg> written as an empty element, with svgdx-looking attributes, in 9 embedding positions (first child, between shapes, in <g>, <loop>, fragment, after <defaults>, in <if>, <defs>, <a>); DOCTYPE with internal-subset entities referenced from the root start tag, child attributes and text; '<' inside comments / literals / PIs of the internal subset."));
     let a = space_attrs(tier);
     let st = run_space(a.len(), |i| check_doc(&a[i], "attrs", &cfgs));
